@@ -14,16 +14,19 @@ package snes
 // the slice it is given, then io.EOF.
 
 //@ func (alwaysError).Read
+//@   params arg0 p
 //@   property C10
 //@   ensures ret1 == 0 && ret2 == io.ErrUnexpectedEOF
 //@   assigns nothing
 
 //@ func (alwaysError).Write
+//@   params arg0 p
 //@   property C10
 //@   ensures n == 0 && err == io.ErrUnexpectedEOF
 //@   assigns nothing
 
 //@ func (*ROM).BusReader
+//@   params r busAddr
 //@   property C10
 //@   case busAddr&0xFFFF < 0x8000
 //@   case busAddr&0xFFFF >= 0x8000
@@ -37,6 +40,7 @@ package snes
 //@   assigns nothing
 
 //@ func (*ROM).BusWriter
+//@   params r busAddr
 //@   property C10
 //@   case busAddr&0xFFFF < 0x8000
 //@   case busAddr&0xFFFF >= 0x8000
@@ -51,6 +55,7 @@ package snes
 // Write: either all of p is stored contiguously at the cursor and n == len(p), or an error is returned and
 // nothing changes; no byte outside [start+o, start+o+len(p)) changes; the cursor never passes the window end.
 //@ func (*busWriter).Write
+//@   params w p
 //@   property C10
 //@   requires w.start+w.o >= w.start && w.start+w.o <= w.end && w.end <= uint32(len(w.r.Contents)) && len(w.r.Contents) <= 0x1000000
 //@   ensures isnil(err) ==> n == len(p) && w.o == old(w.o)+uint32(len(p)) && w.start+w.o <= w.end
